@@ -9,7 +9,8 @@ THEOREMS = ["C15_len_u8", "C15_len_be16", "C15_len_be32", "C15_len_be64", "C15_i
             "C15_server_hello_framing", "C15_client_hello_roundtrip", "C15_server_hello_roundtrip", "C15_sni",
             "C15_certificates", "C15_dhcp_option", "C15_dhcp_options_sequence", "C15_dns_rr",
             # every content size: exact output, "fits" is necessary as well as sufficient, explicit nesting (Props/C15b.v)
-            "C15b_len_u8_exact", "C15b_len_be16_exact", "C15b_len_u8_iff", "C15b_len_be16_iff", "C15b_len_nested"]
+            "C15b_len_u8_exact", "C15b_len_be16_exact", "C15b_len_u8_iff", "C15b_len_be16_iff", "C15b_len_nested",
+            "C15b_int_exact", "C15b_int_iff"]
 PROPS = ["C15", "C15b"]
 VO = ["theories/Props/C15.vo", "theories/Props/C15b.vo"]
 RULE = ("one structure per program, sent as the payload of ipv4::udp::unicast (structures over 60000 bytes through "
@@ -521,7 +522,7 @@ def helper_cases(ctx, prefix=""):
             if v < top:
                 add([Node("int", enc=enc, value=v), L(b"\xaa")], "int:" + enc)
         if w < 8:
-            add([Node("int", enc=enc, value=top + 5)], "int-wraps:" + enc)      # as-cast: outside "fits", model only
+            add([Node("int", enc=enc, value=top + 5)], "int-wraps:" + enc)      # as-cast: the walker expects the value modulo the field width (C15b_int_exact)
     # cipher lists
     for cnt in [0, 1, 2, 3, 4, 127, 128, 255, 256]:
         add([Node("ciphers", ids=[r.choice([0, 1, 0xc02f, 0xffff, r.getrandbits(16)]) for _ in range(cnt)])], "ciphers")
